@@ -84,7 +84,8 @@ func TestC02(t *testing.T) {
 	for _, mode := range []string{"parse", "validate"} {
 		cfg := model.DefaultCfg(mode)
 		cfg.PVary, cfg.PAbsent, cfg.PJunk = 0.35, 0.15, 0.08
-		cfg.PPre = 0.06 // Preprocess wrappers (Parse only): type mismatch / error => one issue, wrapped schema skipped
+		cfg.PCoercer = 0.08 // custom coercers (their refusal is an un-coercible value like any other)
+		cfg.PPre = 0.06     // Preprocess wrappers (Parse only): type mismatch / error => one issue, wrapped schema skipped
 		if h.Thorough() {
 			cfg.MaxDepth, cfg.MaxFields, cfg.MaxElems, cfg.ManyFields = 4, 6, 6, true
 		}
